@@ -93,7 +93,7 @@ def check_all(ctx, facts):
             for side, oth in (("a", "b"), ("b", "a")):
                 o = info[oth]
                 if o["k"] in ("copy", "move"):
-                    sd = fn.single_def(o["l"])
+                    sd = fn.single_def(root_local(fn, o)[0])       # `let total = spans.len();` hoisted out of the loop is the same bound
                     if sd and sd[1] == "term" and sd[2]["callee"].endswith("slice::<impl [T]>::len") and root_local(fn, sd[2]["args"][0])[0] == 2:
                         s = info[side]
                         if s["k"] in ("copy", "move"):
